@@ -290,7 +290,7 @@ def main(tier, seed):
                        'independent decoder (C06); here the expectation is derived from the GIR that was compiled',
                        'documented preconditions of accessors are respected (get_property/get_vfunc only with the flag set)',
                        'types inside g-ir-generate output are not compared (its own dialect: any, gint32, ...)']
-    ck.prove(['gen_c09.py', 'gen_c06.py'], models=['Model/C09.vo'])
+    ck.prove(['gen_c09.py', 'gen_c06.py', 'gen_c02.py'], models=['Model/C09.vo', 'Model/C06K.vo'])
     ok, out = c_build()
     exe = None
     if ok:
